@@ -789,10 +789,9 @@ func WriteVariants(w io.Writer, start, end int, firstmissing bool, appendSNP boo
 				}
 				sa = make([]string, 0)
 				for _, v := range VL.Vs {
-					if start > 0 && end > 0 {
-						if v.Position < start || v.Position > end {
-							continue
-						}
+					// --start and --end each apply on their own as well as together
+					if (start > 0 && v.Position < start) || (end > 0 && v.Position > end) {
+						continue
 					}
 					newVar, err := FormatVariant(v, appendSNP)
 					if err != nil {
@@ -841,10 +840,9 @@ func AggregateWriteVariants(w io.Writer, start, end int, appendSNP bool, thresho
 		}
 		counter++
 		for _, v := range AS.Vs {
-			if start > 0 && end > 0 {
-				if v.Position < start || v.Position > end {
-					continue
-				}
+			// --start and --end each apply on their own as well as together
+			if (start > 0 && v.Position < start) || (end > 0 && v.Position > end) {
+				continue
 			}
 			rep, err := FormatVariant(v, appendSNP)
 			if err != nil {
